@@ -40,6 +40,7 @@ SPECIAL_TITLES = [
     "500ml bottle 12v 1kg", "Größe XL", "Süße Grüße", "Élégant cœur", "Bäckerstraße 5",
     "daddy puppy mummy", "sense tests sensors", "bell bela pikk", "radar level civic",
     "!!!", "-- --", "???", "",          # titles without any word: they take a position in the store and in the index all the same
+    "1\u00bdin pipe", "5mm\u00b2x50m cable", "a\u0663\u0664\u0665b", "\uff30\uff33\uff15pro",     # non-ASCII numerals inside words
     "node.js guide", "AT&T sim", "Wi\u2011Fi router", "hand\u2013made soap", "3.5g modem", "a/b test", "rock&roll", "co_op mode",
     "ps 4 console", "mp-3 player", "ab c", "a bc def", "electroencephalographic otorhinolaryngological kit", "Fried rice", "Dairy farm",
 ]
@@ -894,6 +895,26 @@ def gen_ranking_cases(lang, rnd, ncases):
                             c.add(sid, rid, tt, rr)
                         c.search(sid, f, expect=dict(prop="C08", scenario="function", a=1, b=2, u=cps(u), v=cps(v), x=cps(x)))
                         cases.append(c)
+    # every function word of the language's table once (the table is part of the specification, Langs.tla): the title
+    # containing it carries the far higher rating
+    A1, A2, A3 = disjoint_alphabets(lang, rnd)
+    if min(len(A1), len(A2), len(A3)) >= 3:
+        u, v, x = rand_word(rnd, A1, 5, 9), rand_word(rnd, A2, 5, 9), rand_word(rnd, A3, 3, 8)
+        for k, f in enumerate(fwords):
+            if " " in f:
+                continue
+            letters = [ch for ch in script_letters(lang) if ch not in f]
+            content = f + rand_word(rnd, letters, 2, 4)
+            other = rand_word(rnd, letters, 4, 6)
+            c = Case("C08", "function-table", lang=lang)
+            sid = c.new_store(lang)
+            recs = [(1, content, 0), (2, f + " " + other if k % 2 else other + " " + f, RMAX)]
+            if k % 3 == 0:
+                recs.reverse()
+            for rid, tt, rr in recs:
+                c.add(sid, rid, tt, rr)
+            c.search(sid, f, expect=dict(prop="C08", scenario="function", a=1, b=2, u=cps(u), v=cps(v), x=cps(x)))
+            cases.append(c)
     return cases
 
 
@@ -1398,6 +1419,15 @@ def gen_prepare_cases(lang, rnd, titles, toks, ncases):
             q = random_query(lang, rnd, recs, toks)
             for size in rnd.sample([0, 1, 2, 3], 2):
                 c.op(op="prepare", sid=sid, q=cps(q), size=size)
+        if k % 3 == 1:
+            # the store is cleared and a smaller / other catalogue arrives: positions start again at 0
+            c.op(op="clear", sid=sid)
+            recs2 = [rnd.choice(base + titles[:5]) for _ in range(rnd.randint(1, 4))]
+            for i, t in enumerate(recs2):
+                c.add(sid, 900 + i, t, rnd.randint(0, 100))
+            for _q in range(3):
+                c.op(op="prepare", sid=sid, q=cps(random_query(lang, rnd, recs2, toks)), size=rnd.randint(1, 3))
+            c.op(op="prepare", sid=sid, q=cps(random_query(lang, rnd, recs, toks)), size=3)
         # a gram repeated in the query (words starting alike, a word twice) must count once: records sharing only that
         # gram compete with more than 10 x size records that share two other grams
         letters = script_letters(lang)
@@ -1451,6 +1481,19 @@ def gen_prepare_cases(lang, rnd, titles, toks, ncases):
         c.add(sid, n + 1, w, 0)
         c.op(op="prepare", sid=sid, q=cps(w), size=size)
         c.op(op="prepare", sid=sid, q=cps(w + " " + w[:5]), size=size)
+        cases.append(c)
+    # a long-lived index: an input, then another one repeated a great many times (around 2^8 and 2^16 calls), then the
+    # first input again - per-query bookkeeping that is stamped or counted in a narrow integer comes round
+    if lang in ("en", "de"):
+        c = Case("C18", "prepare-long-lived", lang=lang)
+        sid = c.new_store(lang)
+        wa, wb = rand_word(rnd, letters, 5, 7), rand_word(rnd, letters, 5, 7)
+        for i in range(6):
+            c.add(sid, i + 1, (wa if i % 2 == 0 else wb) + " " + rand_word(rnd, letters, 3, 5), i)
+        for times in (254, 255, 256, 65533, 65534, 65535, 65536):
+            c.op(op="prepare", sid=sid, q=cps(wa), size=3)
+            c.op(op="prepare", sid=sid, q=cps(wb), size=3, times=times)
+            c.op(op="prepare", sid=sid, q=cps(wa), size=3)
         cases.append(c)
     # words that differ only in a first character cut to 16 bits (and the like): all of them as records, alone and in
     # pairs, and as queries - grams are triples of characters, however they are packed
@@ -1746,14 +1789,24 @@ def gen_huge_store_cases(prop, lang, rnd, titles, ncases):
     cases = []
     for _ in range(ncases):
         n = rnd.randint(1050, 1300)
-        limit = rnd.choice([n, n + 5, 150, 200]) if prop in ("C03",) else rnd.choice([150, 200, 130])
+        limit = rnd.choice([n, n + 5, 150, 200]) if prop in ("C03", "C04") else rnd.choice([150, 200, 130])
         shared = rand_word(rnd, script_letters(lang), 5, 7)
         c = Case(prop, "huge", lang=lang)
         sid = c.new_store(lang, limit=limit)
         rt = distinct_ratings(rnd, n, hi=100000)
         for i in range(n):
             c.add(sid, i + 1, shared + " " + rand_word(rnd, script_letters(lang), 3, 6) + " %d" % i, rt[i])
-        if prop == "C03":
+        if prop == "C04":
+            # one record whose word becomes, with its first two letters swapped, a spelling that begins like the word all
+            # the other records share: the typed misspelling shares its word-start grams with every one of them
+            letters_ = [ch for ch in script_letters(lang) if ch not in shared]
+            w = shared[1] + shared[0] + "".join(rnd.choice(letters_) for _ in range(rnd.randint(3, 4)))
+            if len(set(w)) >= 3 and shared[0] != shared[1]:
+                c.add(sid, n + 1, w + " " + rand_word(rnd, letters_, 3, 5), rnd.randint(0, 100000))
+                c.op(op="limit", sid=sid, limit=n + 2)
+                c.search(sid, shared[:2] + w[2:], expect=dict(prop="C04", kind="swap", rid=n + 1, widx=1))
+                c.search(sid, w[:3] + w[4:], expect=dict(prop="C04", kind="del", rid=n + 1, widx=1))
+        elif prop == "C03":
             c.op(op="limit", sid=sid, limit=n + 1)
             for rid in (1, n // 2, n):
                 for k in (1, 2, len(shared)):
@@ -1835,7 +1888,8 @@ def gen_gate_cases(rnd, tier):
     """C17 at the call site: the Jaccard pre-filter of word_match (matching/word.rs) on literal word pairs - a word and
     its single edits / prefixes, over alphabets that include look-alike code points (digits, letters 64 or 256 apart)"""
     cases = []
-    alphas = ["abcde", "ts34-m", "aeiou", "abcdefghijklmnopqrstuvwxyz", "tд4ьs3é)i", "øoOo0", COLLIDING, COLLIDING]
+    alphas = ["abcde", "ts34-m", "aeiou", "abcdefghijklmnopqrstuvwxyz", "tд4ьs3é)i", "øoOo0", COLLIDING, COLLIDING,
+              "ab\u0000 -c", "ab\u0000 -c"]      # joined views carry their separator: blank, hyphen, NUL are set elements too
     n = 40 if tier == "quick" else 800
     for k in range(n):
         c = Case("C17", "gate")
@@ -1866,16 +1920,18 @@ def gen_family_cases(prop, lang, rnd, ncases):
         v = rnd.choice(vowels)
         tail = "".join(rnd.choice(letters) for _ in range(rnd.randint(21 - len(stem), 30 - len(stem))))
         other = "".join(rnd.choice(letters) for _ in range(3))
-        titles = [v + stem, v + stem + tail, stem, v + stem[:3] + other]
+        titles = [v + stem, v + stem + tail, stem, v + stem[:3] + other, v + stem + tail[:1]]    # the last: 'garden' / 'gardens'
         if k % 2:
             titles = [t + " " + rnd.choice(["x", "kit", "set"]) for t in titles]
         rnd.shuffle(titles)
         rt = distinct_ratings(rnd, len(titles))
         full = v + stem
         i = rnd.randrange(2, len(full))
-        qs = [full[:4], full[:i] + full[i + 1:], full, full[:i] + full[i:i + 1] + full[i:], stem[:4], v + stem[1:]]
+        qs = [full[:4], full[:i] + full[i + 1:], full, full[:i] + full[i:i + 1] + full[i:], stem[:4], v + stem[1:],
+              full[:-1] + tail[:1] + full[-1:],           # the longer namesake with its last two letters swapped ('gardesn')
+              full[:-2] + full[-1:] + full[-2:-1]]
         n = len(titles)
-        for q in rnd.sample(qs, 3):
+        for q in rnd.sample(qs, 4):
             # one query per case: every case runs on a thread of its own, so the matrix grows during this very search
             c = Case(prop, "family", lang=lang)
             sid = c.new_store(lang)
